@@ -9,6 +9,8 @@ package main
 import (
 	"fmt"
 	"go/constant"
+	"go/types"
+	"reflect"
 	"strings"
 
 	"golang.org/x/tools/go/ssa"
@@ -169,7 +171,37 @@ func schemaLemmas(prog *Program) []*lemmaQuery {
 	return []*lemmaQuery{structural("every column of CREATE_TABLE_STATEMENT is declared TEXT, BLOB or INTEGER (exact storage, no numeric affinity)", "internal/app/subsystems/aio/store/sqlite:CREATE_TABLE_STATEMENT", ok, detail)}
 }
 
+// resetDefaultLemmas (C06): the stores delete their data on Stop only when Reset is configured, and the
+// flag's declared default (struct tag read by the configuration loader) is false for both backends.
+func resetDefaultLemmas(prog *Program) []*lemmaQuery {
+	var out []*lemmaQuery
+	for _, be := range []string{"sqlite", "postgres"} {
+		pkg := repoModule + "/internal/app/subsystems/aio/store/" + be
+		where := "internal/app/subsystems/aio/store/" + be + ":Config.Reset"
+		ok := false
+		detail := "no Config.Reset field"
+		if pp := prog.ppkg[pkg]; pp != nil && pp.Types != nil {
+			if obj := pp.Types.Scope().Lookup("Config"); obj != nil {
+				if st, isStruct := obj.Type().Underlying().(*types.Struct); isStruct {
+					for i := 0; i < st.NumFields(); i++ {
+						if st.Field(i).Name() == "Reset" {
+							tag := reflect.StructTag(st.Tag(i))
+							detail = st.Tag(i)
+							ok = tag.Get("default") == "false"
+						}
+					}
+				}
+			}
+		}
+		out = append(out, structural("the "+be+" store keeps its data on shutdown by default (Config.Reset default:\"false\")", where, ok, detail))
+	}
+	return out
+}
+
 func extraObligations(prog *Program, prop, tier string) []*lemmaQuery {
+	if prop == "C06" {
+		return resetDefaultLemmas(prog)
+	}
 	if prop == "C16" || prop == "C17" || prop == "C20" {
 		return schemaLemmas(prog)
 	}
